@@ -144,6 +144,9 @@ proof fn lemma_unpack_pack(c: u32)
 
 fn get_slot ( coupon : u32 ) -> ( r : u32 ) ensures
 /*@C16.coupon_slot*/ r == cslot ( coupon ) {
+proof {
+assert ( coupon & 0x3ffffff == coupon % 0x4000000 && coupon & 0x3ffffff == 0x3ffffff & coupon ) by ( bit_vector ) ;
+}
 coupon & KEY_MASK_26 }
 
 
@@ -151,6 +154,7 @@ fn get_value ( coupon : u32 ) -> ( r : u8 ) ensures
 /*@C16.coupon_value*/ r == cval ( coupon ) , r <= 63 {
 proof {
 assert ( ( coupon >> 26 ) <= 63 ) by ( bit_vector ) ;
+assert ( coupon >> 26 == coupon / 0x4000000 && ( 1u32 << 26 ) == 0x4000000 ) by ( bit_vector ) ;
 }
 ( coupon >> KEY_BITS_26 ) as u8 }
 
@@ -166,6 +170,7 @@ let s = slot ;
 assert ( v <= 255 ==> ( ( ( v << 26 ) | ( s & 0x3ffffff ) ) & 0x3ffffff ) == s & 0x3ffffff ) by ( bit_vector ) ;
 let w = value ;
 assert ( w <= 63 ==> w & 0x3f == w ) by ( bit_vector ) ;
+assert ( ( v << 26 ) | ( s & 0x3ffffff ) == ( s & 0x3ffffff ) | ( v << 26 ) && s & 0x3ffffff == 0x3ffffff & s && s & 0x3ffffff == s % 0x4000000 ) by ( bit_vector ) ;
 }
 ( ( value as u32 ) << KEY_BITS_26 ) | ( slot & KEY_MASK_26 ) }
 
@@ -208,7 +213,7 @@ let capped = lz . min ( 62 ) ;
 let value = capped + 1 ;
 proof {
 let l = lo ;
-assert ( ( ( l as u32 ) & 0x3ffffffu32 ) == ( l & 0x3ffffffu64 ) as u32 ) by ( bit_vector ) ;
+assert ( ( ( l as u32 ) & 0x3ffffffu32 ) == ( l & 0x3ffffffu64 ) as u32 && ( l as u32 ) & 0x3ffffffu32 == 0x3ffffffu32 & ( l as u32 ) ) by ( bit_vector ) ;
 let vv = value ;
 let a = addr26 ;
 assert ( 1 <= vv <= 63 ==> ( vv << 26u32 ) == ( ( ( ( vv as u8 ) & 0x3f ) as u32 ) << 26u32 ) ) by ( bit_vector ) ;
@@ -216,6 +221,7 @@ assert ( a == a & 0x3ffffff ) by ( bit_vector ) requires a == ( l as u32 ) & 0x3
 lemma_pack_unpack ( addr26 , value as u8 ) ;
 let w = value as u8 ;
 assert ( w <= 63 ==> w & 0x3f == w ) by ( bit_vector ) ;
+assert ( ( vv << 26 ) | a == a | ( vv << 26 ) ) by ( bit_vector ) ;
 }
 ( value << KEY_BITS_26 ) | addr26 }
 
@@ -760,6 +766,9 @@ break ;
 }
 let stride = ( ( coupon & KEY_MASK_26 ) >> self . container . lg_size ( ) ) | 1 ;
 proof {
+let sx = coupon & 0x3ffffffu32 ;
+let sl = lg as u32 ;
+assert ( sl < 32 ==> sx >> sl == sx / ( 1u32 << sl ) ) by ( bit_vector ) ;
 assert ( stride as int == s ) ;
 let cur = probe as int ;
 assert ( self . container . coupons @ =~= oc ) ;
